@@ -59,6 +59,17 @@ func WarpTargetFullType(targetType string) (string, string) {
 		}
 	}
 
+	// a type that an on-demand import makes visible (`import p.*;` is recorded as `p`) hides the types of
+	// that name in the other packages
+	for _, imp := range imports {
+		for _, clz := range clzs {
+			if clz == imp+"."+pureTargetType {
+				callType = "same package"
+				return clz, callType
+			}
+		}
+	}
+
 	for _, clz := range clzs {
 		if strings.HasSuffix(clz, "."+pureTargetType) {
 			callType = "same package"
